@@ -404,16 +404,31 @@ def z3_model_inputs(E, m, used):
     return res
 
 
-def discharge(E, obs, tier="quick", jobs=None, log=None, inproc_ms=None, timeout=None, solvers=None):
+def discharge(E, obs, tier="quick", jobs=None, log=None, inproc_ms=None, timeout=None, solvers=None, prefs=None):
+    """prefs: optional side conditions a counterexample should satisfy so that it can be replayed natively"""
     stats = _discharge_par(E, obs, tier, jobs, log, inproc_ms, timeout, solvers, refine=False)
-    if E.refinements:
+    prefs = list(prefs or [])
+    if E.refinements or prefs:
         again = [o for o in obs if o.status == "sat" and o.kind != "reach"]
         if again:
             if log:
-                log("  refining %d counterexample(s) found under summaries with the exact definitions" % len(again))
+                log("  re-solving %d counterexample(s) with the exact definitions of summarised functions%s" % (len(again), " and replayability side conditions" if prefs else ""))
+            saved = {id(o): (o.status, o.model, o.solver) for o in again}
             for o in again:
                 o.note = "abstract-sat"
+            base_ref = list(E.refinements)
+            E.refinements = base_ref + prefs
             st2 = _discharge(E, again, tier, jobs, log, inproc_ms, timeout, solvers, refine=True)
+            E.refinements = base_ref
+            retry = []
+            for o in again:
+                if o.status != "sat" and prefs:
+                    retry.append(o)
+            if retry and base_ref:
+                _discharge(E, retry, tier, jobs, log, inproc_ms, timeout, solvers, refine=True)
+            elif retry:
+                for o in retry:
+                    o.status, o.model, o.solver = saved[id(o)]
             stats["solver_s"] += st2["solver_s"]
             stats["refined"] = len(again)
             for k, v in st2["by_solver"].items():
